@@ -12,6 +12,7 @@
 #include <cstring>
 #include <fstream>
 #include <iostream>
+#include <random>
 #include <sstream>
 #include <sys/resource.h>
 #include <sys/wait.h>
@@ -424,6 +425,153 @@ template <template <class...> class G> void textCase(const json &c, bool directe
         throw Fail{"unknown codec"};
 }
 
+// ---------------------------------------------------------------- large files (records for TLC)
+static std::ofstream g_records;
+
+template <class G, class Dec> json edgeListOf(const G &g, Dec dec, bool nolabel) {
+    json a = json::array();
+    for (auto e : g.edges())
+        a.push_back({e.first, e.second, nolabel ? 0 : dec(g.getEdgeLabel(e.first, e.second))});
+    return a;
+}
+
+template <template <class...> class G, class L, class Enc, class Dec>
+G<L> randomGraph(const json &c, Enc enc, Dec, const std::vector<int> &labels, bool directed) {
+    const size_t n = c.at("n").get<size_t>(), m = c.at("m").get<size_t>();
+    std::mt19937 rng(c.value("seed", 1u));
+    G<L> g(n);
+    size_t tries = 0;
+    while (g.getEdgeNumber() < m && tries++ < 20 * m + 100) {
+        VertexIndex i = rng() % n, j = rng() % n;
+        if (c.value("high", false) && rng() % 3 == 0)
+            i = n - 1 - (rng() % std::min<size_t>(n, 3)); // favour the highest indices
+        (void)directed;
+        g.addEdge(i, j, enc(labels[rng() % labels.size()]));
+    }
+    return g;
+}
+
+template <template <class...> class G, class L> void bigBinT(const json &c, bool directed, const std::vector<int> &labels) {
+    constexpr bool nolabel = std::is_same<L, NoLabel>::value;
+    auto enc = [](int a) -> L {
+        if constexpr (nolabel)
+            return L();
+        else
+            return (L)a;
+    };
+    auto dec = [](const L &l) { return labelNum<L>(l); };
+    G<L> g = randomGraph<G, L>(c, enc, dec, labels, directed);
+    std::string path = tmpFile("big.bin");
+    std::remove(path.c_str());
+    io::writeBinaryEdgeList(g, path);
+    std::string got = readAll(path);
+    json bytes = json::array();
+    for (unsigned char ch : got)
+        bytes.push_back((int)ch);
+    const size_t n = g.getSize();
+    ChildResult r = inChild([&]() -> json {
+        G<L> h = io::loadBinaryEdgeList<G, L>(path);
+        json out = {{"loaded_n", h.getSize()}, {"loaded_en", h.getEdgeNumber()}, {"loaded_edges", edgeListOf(h, dec, nolabel)}};
+        h.resize(n);
+        out["equal_after_resize"] = (h == g) && !(h != g);
+        return out;
+    });
+    if (!r.finished)
+        throw Fail{describe(r)};
+    if (r.value.contains("threw"))
+        throw Fail{"loader threw on a file the writer produced: " + r.value.dump()};
+    json rec = r.value;
+    rec["k"] = "bin_big";
+    rec["dir"] = directed;
+    rec["w"] = c.at("w");
+    rec["n"] = n;
+    rec["edges"] = edgeListOf(g, dec, nolabel);
+    rec["bytes"] = bytes;
+    g_records << rec.dump() << "\n";
+}
+template <template <class...> class G> void bigBin(const json &c, bool directed) {
+    switch (c.at("w").get<int>()) {
+    case 0:
+        return bigBinT<G, NoLabel>(c, directed, {0});
+    case 1:
+        return bigBinT<G, unsigned char>(c, directed, {0, 7, 255});
+    case 2:
+        return bigBinT<G, unsigned short>(c, directed, {0, 258, 65535});
+    case 4:
+        return bigBinT<G, unsigned int>(c, directed, {1, 16909060, 70000, 255});
+    case 8:
+        return bigBinT<G, unsigned long long>(c, directed, {2, 16909060, 65536});
+    }
+    throw Fail{"unsupported width"};
+}
+
+static json splitLines(const std::string &t) {
+    json a = json::array();
+    size_t st = 0;
+    while (st < t.size()) {
+        size_t e = t.find('\n', st);
+        if (e == std::string::npos)
+            e = t.size();
+        a.push_back(t.substr(st, e - st));
+        st = e + 1;
+    }
+    return a;
+}
+template <template <class...> class G, class L> void bigTextT(const json &c, bool directed) {
+    constexpr bool nolabel = std::is_same<L, NoLabel>::value;
+    auto dec = [](const L &l) { return TextCodec<L>::dec(l); };
+    std::string path = tmpFile("big.txt");
+    std::remove(path.c_str());
+    json rec;
+    size_t n = 0;
+    const bool written = !c.contains("lines");
+    G<L> g(0);
+    if (written) {
+        g = randomGraph<G, L>(c, [](int a) { return TextCodec<L>::enc(a); }, dec, {0, 1, 2, 3}, directed);
+        n = g.getSize();
+        writeText<G, L>(g, path);
+        rec["edges"] = edgeListOf(g, dec, nolabel);
+    } else {
+        std::ofstream f(path, std::ios::binary);
+        for (auto &ln : c.at("lines"))
+            f << ln.get<std::string>() << "\n";
+        rec["edges"] = json::array();
+    }
+    rec["lines"] = splitLines(readAll(path));
+    ChildResult r = inChild([&]() -> json {
+        auto pr = io::loadTextEdgeList<G, L>(path, TextCodec<L>::parse);
+        json out = {{"loaded_n", pr.first.getSize()}, {"loaded_en", pr.first.getEdgeNumber()},
+                    {"loaded_edges", edgeListOf(pr.first, dec, nolabel)}};
+        if (written) {
+            pr.first.resize(n);
+            out["equal_after_resize"] = (pr.first == g) && !(pr.first != g);
+        } else
+            out["equal_after_resize"] = true;
+        return out;
+    });
+    if (!r.finished)
+        throw Fail{describe(r)};
+    if (r.value.contains("threw"))
+        throw Fail{"loader threw on a well-formed file: " + r.value.dump()};
+    for (auto it = r.value.begin(); it != r.value.end(); ++it)
+        rec[it.key()] = it.value();
+    rec["k"] = "text_big";
+    rec["dir"] = directed;
+    rec["codec"] = c.at("codec");
+    rec["written"] = written;
+    g_records << rec.dump() << "\n";
+}
+template <template <class...> class G> void bigText(const json &c, bool directed) {
+    const std::string codec = c.at("codec");
+    if (codec == "none")
+        return bigTextT<G, NoLabel>(c, directed);
+    if (codec == "string")
+        return bigTextT<G, std::string>(c, directed);
+    if (codec == "int")
+        return bigTextT<G, int>(c, directed);
+    throw Fail{"unknown codec"};
+}
+
 // every loader and writer on a path that cannot be opened: std::runtime_error
 static void unopenable() {
     const std::string bad = g_tmp + "/no/such/dir/file";
@@ -477,6 +625,8 @@ int main(int argc, char **argv) {
         f >> plan;
     }
     g_tmp = plan.at("tmp").get<std::string>();
+    if (plan.contains("records"))
+        g_records.open(plan.at("records").get<std::string>());
     const std::string replayDir = plan.value("replay_dir", std::string("."));
     const std::string tag = plan.value("tag", std::string("io"));
     const size_t maxFail = plan.value("max_fail", 3);
@@ -516,6 +666,10 @@ int main(int argc, char **argv) {
                 dir ? textCase<LabeledDirectedGraph>(c, true, false) : textCase<LabeledUndirectedGraph>(c, false, false);
             else if (k == "unopenable")
                 unopenable();
+            else if (k == "big_bin")
+                dir ? bigBin<LabeledDirectedGraph>(c, true) : bigBin<LabeledUndirectedGraph>(c, false);
+            else if (k == "big_text")
+                dir ? bigText<LabeledDirectedGraph>(c, true) : bigText<LabeledUndirectedGraph>(c, false);
         } catch (const Fail &f) {
             ++failures;
             if (replays.size() < maxFail) {
@@ -534,6 +688,8 @@ int main(int argc, char **argv) {
             }
         }
     }
+    if (g_records.is_open())
+        g_records.close();
     json summary = {{"mode", "io"}, {"cases", cases}, {"runs", cases}, {"failures", failures}, {"records", 0},
                     {"cut_inside_record", cutInside}, {"cut_at_record_boundary", cutAtBoundary},
                     {"malformed_text_files", malformed},
